@@ -2,6 +2,9 @@
 C12 (set) and C14 (bag).  A.swap(B) exchanges the contents of two containers collectively: an operation issued on A after
 swap() returned must act on A's new contents on every rank; an insert issued after clear() returned must survive.
 Oracle = the contents a sequential execution gives (the scenario is deterministic: every key is written by one rank)."""
+import shutil
+import tempfile
+
 from . import common as C
 
 POLICIES = ("racer", "late", "burst", "uniform", "starve")
@@ -29,8 +32,12 @@ def run_job(binary, j):
         env["YGM_COMM_BUFFER_SIZE_KB"] = j["buf_kb"]
     if j.get("placement"):
         env["SIMMPI_PLACEMENT"] = j["placement"]
-    return C.run_sim(binary, [j["kind"], j["sim_seed"], ROUNDS, NK], nodes=j["layout"][0], ppn=j["layout"][1], env=env,
-                     sim_seed=j["sim_seed"], policy=j["policy"], want_log=False, timeout=120)
+    d = tempfile.mkdtemp(prefix="ygmverif-ser-")     # image files of the (de)serialize kinds
+    try:
+        return C.run_sim(binary, [j["kind"], j["sim_seed"], ROUNDS, NK, d], nodes=j["layout"][0], ppn=j["layout"][1], env=env,
+                         sim_seed=j["sim_seed"], policy=j["policy"], want_log=False, timeout=120)
+    finally:
+        shutil.rmtree(d, ignore_errors=True)
 
 
 def judge(res, j, sr):
@@ -56,11 +63,18 @@ def judge(res, j, sr):
             ea, eb = sorted(f"{k}:7" for k in range(NK)), sorted(f"{k}:{100 * rd + 1}" for k in range(NK))
         elif kind == "set":
             ea, eb = [], []
+        elif kind == "ser":       # image = contents at serialize(); A itself holds the later inserts too
+            ea = sorted(f"{k}:{100 * rd + 1}" for k in range(NK))
+            eb = sorted(ea + [f"{1000 + k}:7" for k in range(NK)])
+        elif kind == "deser":     # inserts issued right after deserialize() survive
+            ea, eb = sorted([f"{k}:{100 * rd + 1}" for k in range(NK)] + [f"{1000 + k}:7" for k in range(NK)]), []
+        elif kind in ("deserset", "deserbag"):
+            ea, eb = sorted([str(k) for k in range(NK)] + [str(1000 + k) for k in range(NK)]), []
         else:
             ea, eb = sorted([str(k) for k in range(NK)] + [str(1000 + k) for k in range(NK)]), []
         if a != ea or b != eb:
             wrongA = [x for x in a if x not in ea][:4] + [x for x in ea if x not in a][:4]
-            res.oracle_failures.append({"what": f"{kind}: operations issued right after swap()/clear() returned did not act on the new contents "
+            res.oracle_failures.append({"what": f"{kind}: operations issued right after swap() / clear() / serialize() / deserialize() returned were not ordered after it "
                                                 f"(round {rd}, {n} ranks, buffer {j['buf_kb']}, {j['policy']}): A differs by {wrongA}, B holds {b[:6]} expected {eb[:6]}",
                                         "signature": f"{kind}-swap-clear-race", "case": j})
             return
@@ -69,6 +83,7 @@ def judge(res, j, sr):
 
 
 def run(res, kind, tier, seed):
+    """kind: map | set | bag (swap, clear) | ser (map serialize) | deser | deserset | deserbag (deserialize)"""
     binary, err = C.build_harness("swaprace")
     if binary is None:
         res.corr_failures.append({"relation": "swaprace harness builds against /repo", "what": (err or "")[-600:], "case": None})
